@@ -70,13 +70,22 @@ TB = ("Trusted: Coq 8.16.1 kernel (vm_compute, no native_compute), no axioms (Pr
       "ExtrOcamlBasic extraction + hand-written OCaml driver, the Rust harness and Python generators/oracles. ")
 
 MANIFEST = dict(
-    text="Theorems about machine-level Gallina models (outcome monad with Panic, both arithmetic modes) of the parsers of the archive family: "
-         "for ALL byte strings the parser never panics, the field-sized allocation requests are bounded by the input length, headers / "
-         "entries declaring more than the buffer holds yield Err, and every accepted value re-serializes without panic (all six families: bin archive both endiannesses, pack, "
-         "text archive both formats, arc, aset, asset binary - 39 theorems in Properties/C05.v). Models tied to /repo on every run: outcome category and parsed value "
-         "compared on random bytes and structure-aware mutations/truncations of valid files in debug (checked) and release (wrapping) "
-         "builds; a counting allocator measures the largest single request; the runner detects aborts and hangs.",
+    text="Theorems about machine-level Gallina models (outcome monad with Panic, both arithmetic modes) of the parsers of the archive family "
+         "(all six: bin archive both endiannesses, pack, text archive both formats, arc, aset, asset binary - 58 theorems and 4 examples in "
+         "Properties/C05.v): for ALL byte strings the parser never panics and the loop fuel is never exhausted (termination); the field-sized "
+         "allocation requests are bounded by the input length for EVERY input, also when the parse fails afterwards (bin archive: the "
+         "data.resize request is logged on every path, C05_bin_allocs_bounded; pack: every entry buffer; text / arc / aset / asset readers make no "
+         "field-sized allocation - constant-size buffers or one element per iteration that consumed at least 4 / 8 bytes); headers, table entries, "
+         "counts and sizes that declare more than the buffer holds yield Err (bin header, pointer entry, label address and name offset; pack count and "
+         "entry size; arc Count; the header theorem carried to the text / arc / aset / asset entry points); every accepted value re-serializes "
+         "without panic. Models tied to /repo on every run: outcome category and parsed value compared on random bytes and structure-aware "
+         "mutations/truncations of valid files in debug (checked) and release (wrapping) builds; a counting allocator measures the largest single "
+         "request of every parser kind; the runner detects aborts and hangs; a failing call of every parser family precedes every case (state "
+         "left behind by a rejected input must not leak).",
     note=TB + "Modelled, not verified: Cursor/Read semantics, Vec/HashMap/IndexMap growth (A-std); real allocator behaviour, stack depth "
-              "and time are observed by the harness only.",
+              "and time are observed by the harness only. A-usize: usize sums that the code performs without a width check (text_start + offset + "
+              "0x20, pointer_value + 0x20, reader position += w) are unbounded in the models: exact for a 64-bit usize; a 32-bit target is outside "
+              "these theorems; the mode parameter covers the u32/u64 arithmetic done at a fixed width. Not stated as a rejection: a string pointer "
+              "whose VALUE lies beyond the file (it is an UnterminatedString error in code and model; covered by no-panic and the correspondence).",
     technique="Coq proof (every checked operation is dominated by a guard: induction over the table loops in the outcome monad) + extracted-model differential check in both build profiles + counting allocator",
     ref="DESIGN.md section 2 (C05)")
